@@ -603,4 +603,33 @@ func c09ClassifiedAddressIsSet(c *core.Ctx) {
 		})
 	}
 	c.Floor("R9.3", "IsLoopback classifications in fw/face", n, 1) // the constructors may share one classifying helper
+	// ---- R9.6 the management thread owns no FIB entry behind the RIB's back. The RIB rewrites
+	// the whole FIB entry of every name it has a route for (SetNextHopsEnc / ClearNextHopsEnc
+	// in RibEntry.updateNexthopsEnc): a next hop that the management thread writes into the
+	// FIB directly for /localhost/nfd is replaced by the first rib/register of that name and
+	// cleared by the unregister — with a non-local face registered, every management Interest
+	// of a local application then dies at the /localhost scope check although the internal
+	// face is alive. So: if the RIB rewrites whole entries, the start-up of the management
+	// thread installs its prefixes as routes (Rib.AddEncRoute), never with a FIB mutator.
+	{
+		fibMut := []core.CalleeID{
+			{Pkg: "fw/table", Recv: "FibStrategy", Name: "InsertNextHopEnc"},
+			{Pkg: "fw/table", Recv: "FibStrategy", Name: "SetNextHopsEnc"},
+		}
+		up := c.Fn("R9.6", "fw/table", "RibEntry", "updateNexthopsEnc")
+		run := c.Fn("R9.6", "fw/mgmt", "Thread", "Run")
+		if up != nil && run != nil {
+			whole := core.FindCallsDeep(up, core.CalleeID{Pkg: "fw/table", Recv: "FibStrategy", Name: "SetNextHopsEnc"}, core.CalleeID{Pkg: "fw/table", Recv: "FibStrategy", Name: "ClearNextHopsEnc"})
+			direct := core.FindCallsDeep(run, fibMut...)
+			routes := core.FindCallsDeep(run, core.CalleeID{Pkg: "fw/table", Recv: "RibTable", Name: "AddEncRoute"})
+			switch {
+			case len(whole) == 0:
+				c.Ok("R9.6", "management-prefix-is-a-route", p.Pos(run.Pos()), "the RIB does not rewrite whole FIB entries: a directly installed next hop is not disturbed by route changes")
+			case len(direct) > 0:
+				c.Viol("R9.6", "management-prefix-is-a-route", c.Pos(direct[0]), "the management thread writes the next hop to its internal face straight into the FIB while the RIB rewrites whole FIB entries: rib/register of /localhost/nfd (or of a longer prefix) on a non-local face replaces it, and every management Interest of a local application is then dropped by the /localhost scope check")
+			default:
+				c.Decide(len(routes) > 0, "R9.6", "management-prefix-is-a-route", p.Pos(run.Pos()), fmt.Sprintf("the management prefixes are installed as %d RIB route(s)", len(routes)), "the management thread installs no route for its own prefixes at start-up: /localhost exchanges between local applications and the forwarder cannot work")
+			}
+		}
+	}
 }
